@@ -76,7 +76,7 @@ def c_zlist(l):
 def c_list(items, ty=None):
     items = list(items)
     if not items:
-        return f'(@nil {ty})' if ty else '[]'
+        return f'(@nil ({ty}))' if ty else '[]'
     return '[' + '; '.join(items) + ']'
 
 
